@@ -72,10 +72,8 @@ Qed.
 (* small facts *)
 Lemma skip_res_app (a t : bytes) k : N.of_nat (length a) = k -> skip_res k (a ++ t) = Ok t.
 Proof.
-  intros <-. unfold skip_res. rewrite app_length.
-  destruct (N.leb_spec (N.of_nat (length a)) (N.of_nat (length a + length t))) as [_|H]; [|lia].
-  rewrite Nnat.Nat2N.id. f_equal.
-  rewrite skipn_app, skipn_all, Nat.sub_diag. reflexivity.
+  intros <-. unfold skip_res. rewrite Nnat.Nat2N.id.
+  induction a as [|x a IH]; [reflexivity|]. cbn [length skip_nat app]. exact IH.
 Qed.
 
 Lemma skip_res_0 (t : bytes) : skip_res 0 t = Ok t.
